@@ -629,7 +629,7 @@ def gen_cases(rng, tier):
                 if (ck == 2) == ist:
                     pairs.append((vn, qs, c, ck, dq))
         if not thorough:
-            pairs = rng.sample(pairs, min(len(pairs), 600))
+            pairs = rng.sample(pairs, min(len(pairs), 400))
         for vn, qs, c, ck, dq in pairs:
             cases.append({"in": [0, c, cx.nid[vn]], "kind": "elem", "cls": rng.choice(qs), "dialect": dq, "ck": ck})
         # --- op: second/third level dispatch through the real visit_binary / visit_unary / ... of a compiler
@@ -649,7 +649,7 @@ def gen_cases(rng, tier):
                     cases.append({"in": [1, c, pos, cx.oid["custom_op"], 1, cust], "kind": "op", "op": "custom_op",
                                   "visit_name": vn, "dialect": dq})
         # --- tree
-        n = 6000 if thorough else 700
+        n = 6000 if thorough else 500
         k = 0
         while k < n:
             c = _gen_tree_case(rng, cx)
@@ -677,7 +677,7 @@ def gen_cases(rng, tier):
     # --- oracle-only compile fuzz
     from specs import c22_fuzz
 
-    cases += c22_fuzz.gen(rng, 12000 if thorough else 1500)
+    cases += c22_fuzz.gen(rng, 12000 if thorough else 1200)
     return cases
 
 
